@@ -97,10 +97,17 @@ def check(run, driver):
     for i in range(3 if thorough else 2):
         N = int(rng.integers(14, 22))
         X = rng.standard_normal((N, 1)); Y = X * 0.7 + rng.standard_normal((N, 1)); Z = rng.standard_normal((N, 1)) + 0.3 * Y
-        datasets.append((X, Y, Z))
+        datasets.append((X, Y, Z, False))
+    # "for all data": integer-valued samples with many exact ties, and arguments of DIFFERENT dtypes (counts next to continuous
+    # measurements, single next to double precision) -- handed unchanged to the dispatcher and to the named estimator
+    X, Y, Z, _ = datasets[0]
+    Xt, Yt, Zt = np.round(np.abs(X) * 3), np.round(np.abs(Y) * 3), np.round(np.abs(Z) * 3)
+    datasets.append((Xt, Yt, Zt, True))
+    datasets.append((Xt.astype(np.int64), Y.copy(), Z.astype(np.float32), True))
+    datasets.append((X.astype(np.float32), Y.copy(), Zt.astype(np.int32), True))
     seen_fail = set()
     confirmed = set()
-    for (X, Y, Z) in datasets:
+    for (X, Y, Z, raw) in datasets:
         N = len(X)
         Xc, Yc, Zc = np.round(np.abs(X) * 3), np.round(np.abs(Y) * 3), np.round(np.abs(Z) * 3)
         for name, zp in itertools.product(NAMES, (True, False)):
@@ -113,10 +120,10 @@ def check(run, driver):
                 combos = [dict(metric="euclidean", k=3, bandwidth=b, kernel=kn) for b in bws for kn in kernels]
             else:
                 combos = [dict(metric="cityblock", k=2, bandwidth="scott", kernel="gaussian")]
+            if raw and len(combos) > 2 and not thorough:
+                combos = combos[::2]
             for st in combos:
-                if name in ("knn",) and zp and st["k"] == N - 1:
-                    pass
-                data = (Xc, Yc, Zc) if name == "poisson" else (X, Y, Z)
+                data = (Xc, Yc, Zc) if (name == "poisson" and not raw) else (X, Y, Z)
                 a = (data[0], data[1], data[2] if zp else None)
                 for n_ in SPIED:
                     setattr(M, n_, mk(n_))
